@@ -64,12 +64,17 @@ Definition serialize (id : N) (acts : list action) : bytes :=
   let body := ser_body id acts in body ++ le 4 (crc32 body).
 
 (* ---- parsing ---- *)
-Inductive pres := PRecord (id : N) (acts : list action) (len : nat) | PEof | PInvalid.
+(* PCut id: the header of record id was read and a reader error followed (bytes end, checksum mismatch,
+   unknown code): the sequence check on id still happens, then this file ends *)
+Inductive pres := PRecord (id : N) (acts : list action) (len : nat) | PEof | PInvalid | PCut (id : N).
 
 Definition take (n : nat) (b : bytes) : option (bytes * bytes) :=
   if Nat.leb n (length b) then Some (firstn n b, skipn n b) else None.
 
-(* one action; [None] = the bytes end inside it *)
+(* one action. AEof: a reader error (the bytes end inside an action header, or an unknown code): the record
+   is not applied and the rest of THIS file is ignored, the replay goes on with the next file.
+   ABad: a validation error (bad table, index out of range, payload cut short, a record inside a record):
+   every remaining log is discarded. *)
 Inductive ares := AOk (a : action) (rest : bytes) | AEnd (rest : bytes) | AEof | ABad.
 
 Definition parse_action (ncols : N) (b : bytes) : ares :=
@@ -88,7 +93,7 @@ Definition parse_action (ncols : N) (b : bytes) : ares :=
             else if (op =? log_insert_ref_count) && (2 ^ (t mod 256) <=? i) then ABad
             else
             match take n r1 with
-            | None => AEof
+            | None => ABad      (* the payload is read by validate_plan: running out of bytes there is a validation error *)
             | Some (es, r2) => AOk (if op =? log_insert_index then AIndex t i m es else ARefc t i m es) r2
             end
         end
@@ -99,12 +104,12 @@ Definition parse_action (ncols : N) (b : bytes) : ares :=
             let t := unle (firstn 2 h) in let i := unle (skipn 2 h) in
             let hd := if i =? 0 then [] else firstn 2 r1 in
             if ncols <=? t / 256 then ABad
-            else if negb (i =? 0) && Nat.ltb (length r1) 2 then AEof
+            else if negb (i =? 0) && Nat.ltb (length r1) 2 then ABad
             else if negb (i =? 0) && (unle hd mod 32768 =? 32767) && negb (unle hd =? 65535) then ABad
             else match value_len t i hd with
-                 | None => AEof
+                 | None => ABad
                  | Some n => match take n r1 with
-                             | None => AEof
+                             | None => ABad
                              | Some (p, r2) => AOk (AValue t i p) r2
                              end
                  end
@@ -114,7 +119,8 @@ Definition parse_action (ncols : N) (b : bytes) : ares :=
         | None => AEof
         | Some (h, r1) => AOk (if op =? log_drop_table then ADropTable (unle h) else ADropRc (unle h)) r1
         end
-      else ABad
+      else if op =? log_begin_record then ABad     (* a record inside a record: everything is discarded *)
+      else AEof                                    (* an unknown code is a reader error: this file ends here *)
   end.
 
 Fixpoint parse_actions (ncols : N) (fuel : nat) (b : bytes) (acc : list action) : option (option (list action * bytes)) :=
@@ -134,40 +140,55 @@ Definition parse_record (ncols : N) (b : bytes) : pres :=
   match b with
   | [] => PEof
   | op :: r =>
-      if negb (op =? log_begin_record) then PInvalid
+      if negb (op =? log_begin_record) then
+        (* Log::read_next -> LogReader::next: the reader first reads the action the byte announces (a 10-byte
+           action header, a 4-byte checksum, a 2-byte table id); running out of bytes there is the end of
+           the file, anything that can be read is a bad structure, an unknown code is one at once *)
+        let need := if (op =? log_insert_index) || (op =? log_insert_value) || (op =? log_insert_ref_count) then Some 10%nat
+                    else if op =? log_end_record then Some 4%nat
+                    else if (op =? log_drop_table) || (op =? log_drop_ref_count_table) then Some 2%nat
+                    else None in
+        match need with
+        | Some n => if Nat.ltb (length r) n then PEof else PInvalid
+        | None => PInvalid
+        end
       else match take 8 r with
            | None => PEof
            | Some (idb, r1) =>
                match parse_actions ncols (S (length r1)) r1 [] with
                | None => PInvalid
-               | Some None => PEof
+               | Some None => PCut (unle idb)
                | Some (Some (acts, r2)) =>
                    match take 4 r2 with
-                   | None => PEof
+                   | None => PCut (unle idb)
                    | Some (c, _) =>
                        let blen := (length b - length r2)%nat in
-                       if unle c =? crc32 (firstn blen b) then PRecord (unle idb) acts (blen + 4) else PInvalid
+                       (* a checksum mismatch is a reader error: the record is not applied and this file ends here *)
+                       if unle c =? crc32 (firstn blen b) then PRecord (unle idb) acts (blen + 4) else PCut (unle idb)
                    end
                end
            end
   end.
 
 (* ---- replay acceptance ---- *)
-(* records of one file until the first that is not a complete valid record *)
-Fixpoint file_records (ncols : N) (fuel : nat) (b : bytes) : list (N * list action) * bool (* ended by an INVALID record *) :=
+(* records of one file until the first that is not a complete valid record, and how the file ended *)
+Inductive fend := FEof | FBad | FCut (id : N).
+Fixpoint file_records (ncols : N) (fuel : nat) (b : bytes) : list (N * list action) * fend :=
   match fuel with
-  | O => ([], false)
+  | O => ([], FEof)
   | S f =>
       match parse_record ncols b with
-      | PRecord id acts len => let '(rs, bad) := file_records ncols f (skipn len b) in ((id, acts) :: rs, bad)
-      | PEof => ([], false)
-      | PInvalid => ([], true)
+      | PRecord id acts len => let '(rs, t) := file_records ncols f (skipn len b) in ((id, acts) :: rs, t)
+      | PEof => ([], FEof)
+      | PInvalid => ([], FBad)
+      | PCut id => ([], FCut id)
       end
   end.
 
 (* DbInner::replay_all_logs over the files ordered by first record id: a record is applied iff it
-   carries the next expected id; an out-of-sequence or invalid record ends the whole replay, a record
-   cut short only ends its file *)
+   carries the next expected id; an out-of-sequence record header (enact_logs compares the id of the
+   header before it reads the rest) or a validation error ends the whole replay, a reader error (record
+   cut short, checksum mismatch, unknown code) only ends its file *)
 Fixpoint replay_recs (rs : list (N * list action)) (expect : N) : list N * option N (* next expected; None = stopped *) :=
   match rs with
   | [] => ([], Some expect)
@@ -175,12 +196,14 @@ Fixpoint replay_recs (rs : list (N * list action)) (expect : N) : list N * optio
       if id =? expect then let '(l, e) := replay_recs rs' ((id + 1) mod 2 ^ 64) in (id :: l, e)
       else ([], None)
   end.
-Fixpoint replay_files (files : list (list (N * list action) * bool)) (expect : N) : list N :=
+Definition goes_on (t : fend) (e : N) : bool :=
+  match t with FEof => true | FBad => false | FCut id => id =? e end.
+Fixpoint replay_files (files : list (list (N * list action) * fend)) (expect : N) : list N :=
   match files with
   | [] => []
-  | (rs, bad) :: rest =>
+  | (rs, t) :: rest =>
       match replay_recs rs expect with
-      | (l, Some e) => if bad then l else l ++ replay_files rest e
+      | (l, Some e) => if goes_on t e then l ++ replay_files rest e else l
       | (l, None) => l
       end
   end.
